@@ -43,6 +43,7 @@ def check(m, run):
     rs.iv1(m, run, rational, caches_filter=keep)
     rs.iv3_cache_keys(m, run, rational)
     from .. import skel_drivers as _sdc
+    _sdc.evx(m, run)       # the rational evaluators divide by the weight function itself, whatever its size (EVX, every threshold comparison taken both ways)
     _sdc.gw2(m, run)       # the weighted grid generator: every read follows the current grid and the current weights (also after generating again)
     _sdc.sc2(m, run)       # what the views are derived from is what was assigned (every class, a small precision included)
     run.floor('IV1.no-stale-cache', 200, 'rational classes x entries x 2 caches')
